@@ -169,6 +169,26 @@ def main(tier):
                                              'thread returned something else than its sequential text',
                                    'results': [str(x)[:200] for x in res], 'expected': [x[:200] for x in ref]})
         run.coverage['all_lines_schedules'] = nall
+        # one preemption at every program point: thread A stops the first time it reaches a line of the package
+        # (for every line its print of never-printed classes executes), thread B prints the same values to the
+        # end, A resumes
+        firsts, nlines = sched.preemption_points()
+        pts = firsts if tier != 'quick' else firsts[::max(1, len(firsts) // 200)]
+        nsweep = 0
+        for k in pts:
+            res, ref = sched.run_single_preemption(k)
+            letters = [outcome_letter(res[i], ref[i]) for i in range(2)]
+            nsweep += 1
+            run.count(1)
+            if any(x != 'P' for x in letters):
+                viol += 1
+                if viol <= 3:
+                    run.violation({'kind': 'single-preemption', 'k': k, 'outcomes': letters,
+                                   'detail': 'thread A preempted after %d package lines of a print of never-printed classes, '
+                                             'thread B printed the same values meanwhile: a thread raised or returned another text' % k,
+                                   'results': [str(x)[:300] for x in res], 'expected': ref[0][:300]})
+        run.coverage['single_preemption_points'] = nsweep
+        run.coverage['distinct_lines_of_a_cold_print'] = len(firsts)
         dis = 0
         if reqs:
             out = run_driver(reqs, shards=1)
@@ -196,7 +216,9 @@ def main(tier):
             'and seeded random interleavings; same or different widths per thread; 2-3 threads laying out different values, '
             'gated on the line events of best_layout and both fitting predicates (seeded random interleavings, runs of '
             '1..120 lines); 2-3 threads printing mixed values (split strings, comments, calls, shared objects) gated on EVERY '
-            'line executed inside the package (seeded random interleavings, runs of 1..2000 lines). '
+            'line executed inside the package (seeded random interleavings, runs of 1..2000 lines); a sweep with ONE preemption at '
+            'the first execution of every distinct package line of a print of never-printed classes (fresh namedtuple, tuple '
+            'subclass, lazily registered class, exception), the other thread printing the same values meanwhile. '
             'non-trivial = runs in which both/all threads executed traced lines before the drain')
     return run.finish()
 
@@ -207,6 +229,11 @@ def replay(path):
     if 'schedule' not in p:
         print(json.dumps(p, indent=1)[:3000])
         return 1
+    if p.get('kind') == 'single-preemption':
+        res, ref = sched.run_single_preemption(p['k'])
+        letters = [outcome_letter(res[i], ref[i]) for i in range(2)]
+        print(letters, [str(x)[:150] for x in res])
+        return 0 if all(x == 'P' for x in letters) else 1
     if p.get('kind') == 'mixed-promotion':
         res, ref = sched.run_mixed_promotion(p['threads'], p['schedule'])
         letters = [outcome_letter(res[i], ref[i]) for i in range(p['threads'])]
